@@ -123,7 +123,7 @@ func ellswiftFamilies(c *mon.Ctx) {
 			return
 		}
 		if bi(got).Cmp(want) != 0 {
-			k.Failf("ellswift:XSwiftEC:value:"+ucls+"/"+tcls, "u=%064x t=%064x got %x want %x", u, t, bi(got), want)
+			k.Failf("ellswift:XSwiftEC:value", "u=%064x (%s) t=%064x (%s) got %x want %x", u, ucls, t, tcls, bi(got), want)
 		}
 		if _, ok := ref.LiftX(bi(got)); !ok {
 			k.Failf("ellswift:XSwiftEC:not-on-curve", "u=%064x t=%064x got %x", u, t, bi(got))
@@ -228,7 +228,7 @@ func ellswiftFamilies(c *mon.Ctx) {
 			return
 		}
 		if !bytes.Equal(got[:], want[:]) {
-			k.Failf("ellswift:V2Ecdh:value:"+c1+"/"+c2, "priv=%x theirs=%x ours=%x init=%v got %x want %x", privA, encB, encA, initiating, got[:], want[:])
+			k.Failf("ellswift:V2Ecdh:value", "priv=%x theirs=%x (u %s, t %s) ours=%x init=%v got %x want %x", privA, encB, c1, c2, encA, initiating, got[:], want[:])
 		}
 		wx := ref.EllswiftECDHXOnly(encB, privA)
 		gx, err := ellswift.EllswiftECDHXOnly(encB, pk)
